@@ -27,6 +27,10 @@ type Flags struct {
 	// AllOcc is no defect model but a harness mode (back.Harness.AllOcc): a planted fault, keyed with occurrence 0, fires at
 	// every call with its (node, field, key)
 	AllOcc bool
+	// SpreadMarks is no defect model either: expected error paths carry the *model.Spread they were reached through, at
+	// the place where ggql puts its "fragment at L:C" segment (K-C06-fragseg), so that a monitor can tell WHICH spread a
+	// segment has to name
+	SpreadMarks bool
 }
 
 func bigOf(v interface{}) (*big.Float, bool) {
